@@ -144,6 +144,23 @@ class NSBytes(NonSeekable, io.RawIOBase):
     pass
 
 
+def _tempfile_source(tmp, text):
+    tf = tempfile.NamedTemporaryFile("w+", encoding="utf-8", newline="", dir=tmp, suffix=".src")
+    tf.write(text)
+    tf.flush()
+    tf.seek(0)
+    return tf
+
+
+def _close(kw):
+    src = kw.get("source")
+    if hasattr(src, "close") and not isinstance(src, (io.StringIO, io.BytesIO)):
+        try:
+            src.close()
+        except Exception:
+            pass
+
+
 def c14n(text_or_bytes):
     data = text_or_bytes if isinstance(text_or_bytes, str) else text_or_bytes.decode("utf-8")
     # drop the XML declaration (encoding pseudo-attribute differs between text and binary targets)
@@ -195,15 +212,35 @@ class C16(spec.Spec):
             self.ser(doc, fmt, sio)
             bio = io.BytesIO()
             self.ser(doc, fmt, bio)
-            path = os.path.join(tmp, "out-é." + base)
+            # (a file name with a non-ASCII character and a percent-escape look-alike)
+            path = os.path.join(tmp, "out-é%20v." + base)
             self.ser(doc, fmt, path)
             with open(path, "rb") as f:
                 fbytes = f.read()
+            if set(os.listdir(tmp)) != {os.path.basename(path)}:
+                out.violation("path-destination-written-elsewhere", fmt, {"files": sorted(os.listdir(tmp))}, hh)
+                return
+            # a text file whose encoding is not UTF-8: the stream, not the library, owns the encoding
+            p16 = os.path.join(tmp, "utf16." + base)
+            with open(p16, "w", encoding="utf-16", newline="") as f16:
+                self.ser(doc, fmt, f16)
+            with open(p16, "r", encoding="utf-16", newline="") as f16:
+                t16 = f16.read()
         except Exception as e:
             out.violation("serialize-raises", "%s:%s" % (fmt, type(e).__name__), {"error": repr(e)}, hh)
             return
-        out.transitions += 4
-        texts = {"returned": s_ret, "StringIO": sio.getvalue(), "BytesIO": bio.getvalue(), "path": fbytes}
+        out.transitions += 5
+        texts = {"returned": s_ret, "StringIO": sio.getvalue(), "BytesIO": bio.getvalue(), "path": fbytes, "utf16-text-file": t16}
+        # a text stream that is not an io.TextIOBase instance (tempfile's wrapper around one)
+        try:
+            with tempfile.NamedTemporaryFile("w+", encoding="utf-8", newline="", dir=tmp, suffix=".tmp") as tf:
+                self.ser(doc, fmt, tf)
+                tf.flush()
+                tf.seek(0)
+                texts["tempfile-text-wrapper"] = tf.read()
+        except Exception as e:
+            out.violation("serialize-raises", "%s:tempfile-text-wrapper:%s" % (base, type(e).__name__), {"error": repr(e)}, hh)
+        out.transitions += 1
         if not isinstance(s_ret, str):
             out.violation("returned-value-not-str", fmt, {"type": type(s_ret).__name__}, hh)
             return
@@ -219,8 +256,9 @@ class C16(spec.Spec):
                     out.violation("destinations-disagree", "xml:%s" % k, {"a": ref[:300], "b": v[:300]}, hh)
         else:
             ref = s_ret
-            if texts["StringIO"] != ref:
-                out.violation("destinations-disagree", "%s:StringIO" % fmt, {"a": ref[:300], "b": texts["StringIO"][:300]}, hh)
+            for k in ("StringIO", "utf16-text-file", "tempfile-text-wrapper"):
+                if k in texts and texts[k] != ref:
+                    out.violation("destinations-disagree", "%s:%s" % (fmt, k), {"a": ref[:300], "b": texts[k][:300]}, hh)
             for k in ("BytesIO", "path"):
                 try:
                     dec = texts[k].decode("utf-8")
@@ -241,6 +279,8 @@ class C16(spec.Spec):
             "text-stream-nonseekable": lambda: dict(source=NSText(io.StringIO(text))),
             "binary-stream-nonseekable": lambda: dict(source=NSBytes(io.BytesIO(data))),
             "path": lambda: dict(source=path),
+            "utf16-text-file": lambda: dict(source=open(p16, "r", encoding="utf-16", newline="")),
+            "tempfile-text-wrapper": lambda: dict(source=_tempfile_source(tmp, text)),
         }
         if base == "provn":
             # write-only format: every reader must fail, none may return a document
@@ -254,23 +294,27 @@ class C16(spec.Spec):
                     except Exception:
                         out.outcomes["provn-read-fails"] += 1
                     out.transitions += 1
+                _close(kw)
             out.nontrivial += 1
             return
         for sname, mk in sources.items():
             readers = [("deserialize", lambda kw: ProvDocument.deserialize(format=base, **kw))]
-            if "source" in mk():
+            if sname not in ("content-str", "content-bytes"):
                 readers.append(("prov.read(format)", lambda kw: prov.read(kw["source"], format=base)))
                 readers.append(("prov.read(FORMAT)", lambda kw: prov.read(kw["source"], format=base.upper())))
                 readers.append(("prov.read()", lambda kw: prov.read(kw["source"])))
             for rname, rd in readers:
                 out.transitions += 1
                 out.evaluations += 1
+                kw = mk()
                 try:
-                    got = rd(mk())
+                    got = rd(kw)
                 except Exception as e:
+                    _close(kw)
                     out.violation("reader-raises", "%s:%s:%s:%s" % (fmt, sname, rname, type(e).__name__),
                                   {"error": repr(e)[:300]}, hh)
                     continue
+                _close(kw)
                 if got is None or not same_doc(base, got, doc):
                     out.violation("reader-returns-other-document", "%s:%s:%s" % (fmt, sname, rname),
                                   {"got": "None" if got is None else repr(observe.dobs(got))[:400],
